@@ -2,8 +2,15 @@
 //! properties: C14
 //! note: onion_utils::shift_slice_right on slices of any length (attribution-data shifting helper)
 //! trusted: none beyond Verus/Z3 (no stubs); the function is extracted verbatim
+//! trusted: assume_specification for core::cmp::max / core::cmp::min (std definitions): present in every unit so that a change that introduces them is verified instead of being rejected by the tool
 use vstd::prelude::*;
 verus! {
+use vstd::std_specs::cmp::*;
+use core::cmp;
+pub assume_specification<T: core::cmp::Ord>[core::cmp::max::<T>](a: T, b: T) -> (r: T)
+    ensures T::obeys_cmp_spec() ==> r == (if b.cmp_spec(&a) == core::cmp::Ordering::Less { a } else { b });
+pub assume_specification<T: core::cmp::Ord>[core::cmp::min::<T>](a: T, b: T) -> (r: T)
+    ensures T::obeys_cmp_spec() ==> r == (if b.cmp_spec(&a) == core::cmp::Ordering::Less { b } else { a });
 //@extract lightning/src/ln/onion_utils.rs :: fn shift_slice_right
 //@requires
     amt <= old(arr)@.len()
